@@ -22,7 +22,7 @@ CLAIMED["C17"] = ("proof",
     "Coq theorems over a table-generic Gallina model of TryExpandError / RpcErrorToNative / the tryToProcessErr decision: totality (no panic) for every text, "
     "parameter extraction and X-substitution for every row of any table passing the decidable table_ok, plain delivery of absent / non-numeric / out-of-range "
     "parameters, description lookup with one verb, the PHONE_MIGRATE decision; one caller's reconnect-and-repeat (C17_live_migrate); the migration protocol of the repaired code as a transition system over K callers (Misc/Migrate.v): mutual exclusion, one connection per target however many callers were redirected, request accounting, deadlock freedom, and termination with every caller holding its own answer when the targets serve (C17_concurrent_migrate_*); instantiated by vm_compute on the tables regenerated from the tree on every run. "
-    "Tied to the code by a differential run of the extracted model against RpcErrorToNative, TryExpandError, fmt.Sprintf and tryToProcessErr.",
+    "Tied to the code by a differential run of the extracted model against RpcErrorToNative, TryExpandError, fmt.Sprintf and tryToProcessErr. Which table: Misc/DcConfig.v models the list NewClient builds from help.getConfig (last non-CDN option per id wins, CDN options never a target, net.JoinHostPort address incl. the bracketed IPv6 form; C17_config_*), compared with the table the real client holds after NewClient against a server whose option list varies per scenario.",
     "DESIGN.md section 8 (C17: plan) and section 11.4 / 11.6 (as built)",
     "Trusted: Coq kernel; extraction + OCaml driver; Go harness; the verif export of the tables. strconv.Atoi and the one-operand fmt.Sprintf subset are re-implemented in "
     "Gallina and compared, not proved. The live reconnect-and-repeat half of PHONE_MIGRATE is run against two in-process servers (scenarios in child processes, forced "
